@@ -321,6 +321,16 @@ def runner_check(ctx, test_exe, driver, rng, thorough, prop, clause):
                                                {"input": rcases[ci][:first] + ["end"], "observed": o, "expected": m, "runner": True}))
     ctx.cov["runner_cases"] = len(rcases)
     ctx.count("runner-histories", len(rcases))
+    # the table the stream / DTLS servers tick (pkg/connections): overlapping stores and deletes from the per-connection
+    # goroutines must not lose a connection (real goroutines: evidence, the table is a sync.Map)
+    cl = ["conns %d %d 8" % (ctx.seed, 1500 if thorough else 300)]
+    co = common.run_test_harness(ctx, test_exe, "TestC18Conns", cl, timeout=300, tag="conns")
+    if co and len(co) == 1:
+        if not co[0].startswith("ok "):
+            ctx.violations.append(common.Violation(clause, "%s:connections-table" % prop,
+                                                   "pkg/connections under overlapping Store/Delete: %s (a connection that is not in the table is never ticked: "
+                                                   "its monitor never fires, its tables are never swept)" % co[0], {"input": cl, "observed": co[0], "conns": True}))
+        ctx.cov["connections_table_rounds"] = co[0]
 
 def run(ctx):
     art = common.standard_prepare(ctx, MODULES, hx=False, test=True, generated=GENERATED)
@@ -332,6 +342,13 @@ def run(ctx):
 def replay(ctx, rep):
     art = common.standard_prepare(ctx, MODULES, hx=False, test=True, generated=GENERATED)
     lines = rep.get("input") or []
+    if lines and lines[0].startswith("conns"):
+        o = common.run_test_harness(ctx, art["test"], "TestC18Conns", lines, tag="replay")
+        print("%s: %s" % (lines[0], o))
+        if o and not o[0].startswith("ok "):
+            print("VIOLATION property=%s replay=(replayed) still reproduces" % ctx.prop)
+            return 1
+        return 0
     if lines and lines[0].startswith("rcfg"):
         impl = common.run_test_harness(ctx, art["test"], "TestC18Runner", lines, tag="replay")
         rc, model, _ = common.pipe_lines([art["driver"], "runner"], lines)
